@@ -533,7 +533,24 @@ func (C03) Run(t *testing.T, plan *kernel.Plan, keepLog bool) *kernel.Result {
 					continue // not a damaged value: one of the two valid values
 				}
 				viaProxy := k%23 == 0 // the proxy path is ~100x more expensive; sampled
-				rs := cw.reveal(p, m, p.hash, owner, nil, nil, viaProxy)
+				var prefix, suffix []byte
+				if k%46 == 0 {
+					// the damaged value sits inside a larger cell (the scan for embedded values is another code path)
+					prefix, suffix = []byte("cell-prefix "), []byte(" cell-suffix")
+				}
+				if !viaProxy && k%7 == 3 && len(m) > 150 {
+					// 8-byte fields deep in the value are rare among the sampled mutations: the ones at the edge
+					// of the signed range go through the proxy as an embedded value as well
+					if n := len(m); n >= 8 {
+						for off := 64; off+8 <= n && off < 220; off++ {
+							if v := binary.LittleEndian.Uint64(m[off:]); v >= 1<<63-200 && v < 1<<63 && !bytes.Equal(m[off:off+8], p.data[off:off+8]) {
+								viaProxy, prefix, suffix = true, []byte("cell-prefix "), []byte(" cell-suffix")
+								break
+							}
+						}
+					}
+				}
+				rs := cw.reveal(p, m, p.hash, owner, prefix, suffix, viaProxy)
 				if !check("mut", rs, fmt.Sprintf("mutation %d of %d (%d -> %d bytes)", k, len(muts), len(p.data), len(m))) {
 					break
 				}
